@@ -169,6 +169,53 @@ def work_retry(args):
     return ctx.export()
 
 
+def work_names(args):
+    '''an algorithm with several state vectors that share value names: every
+    value written is reported exactly once, under its own full name, with the
+    flag "content was not in the store before"'''
+    tier, seed = args
+    import itertools as it
+    import dawgie.db
+    from dawgie.db.shelve.state import DBI
+    from . import world, mini
+
+    ctx = common.Ctx('C07', tier, seed, LEVEL)
+    slots = [('s', 'x'), ('s', 'y'), ('u', 'x'), ('w', 'x')]
+    for pre in ((), ('c0',)):
+        for cs in it.product(('c0', 'c1', 'c2'), repeat=len(slots)):
+            if len(set(cs)) == 1 and cs[0] == 'c2':
+                continue
+            w = world.StoreWorld()
+            rep = {'tier': 'names', 'already_stored': list(pre), 'contents': dict((f'{a}.{b}', c) for (a, b), c in zip(slots, cs))}
+            try:
+                for i, c in enumerate(pre):
+                    do_update((9, 'Z', 'z%d' % i, c))
+                svs = {}
+                for (svn, vn), c in zip(slots, cs):
+                    svs.setdefault(svn, {})[vn] = mini.Val(c)
+                a = mini.Alg('a', svs=[mini.SV(n, values=v) for n, v in svs.items()])
+                b = mini.Bot('t', 1, 'A', [a])
+                DBI()._DBI__reopened = True
+                ctx.count('updates')
+                try:
+                    dawgie.db.connect(a, b, 'A').update()
+                finally:
+                    DBI()._DBI__reopened = False
+                seen = set(pre)
+                want = []
+                for (svn, vn), c in zip(slots, cs):
+                    want.append((f'1.A.t.a.{svn}.{vn}', c not in seen))
+                    seen.add(c)
+                got = [(n, bool(f)) for n, f in b.new_values() if '__metric__' not in n]
+                if sorted(got) != sorted(want):
+                    names_ok = sorted(n for n, _f in got) == sorted(n for n, _f in want)
+                    ctx.violation('C07/report/' + ('flag-differs' if names_ok else 'value-reported-under-another-name'),
+                                  f'update reported {got}, written {want}', rep)
+            finally:
+                w.close()
+    return ctx.export()
+
+
 def work_free(args):
     tier, seed, shard, nshards, depth = args
     from . import world
@@ -574,6 +621,8 @@ def run(ctx):
         states.update(r['outcomes'])
         ctx.sample(r['sample'])
     for r in common.pmap(work_retry, [(ctx.tier, ctx.seed)]):
+        ctx.merge(r)
+    for r in common.pmap(work_names, [(ctx.tier, ctx.seed)]):
         ctx.merge(r)
     for r in common.pmap(work_purge, [(ctx.tier, ctx.seed, hx, hy) for hx, hy in purge_histories()]):
         ctx.merge(r)
